@@ -312,3 +312,31 @@ PROPS["C13"] = {
         {"name": "perm", "mode": "rapid", "run": "TestC13Perm", "checks": {"quick": 1600, "thorough": 32000}},
     ],
 }
+
+PROPS["C16"] = {
+    "level": "exploration",
+    "rule": ("(valid Spec, transient id, name generator, extension, directory list, pre-existing content) drawn by rapid. Specs over vendors with "
+             "dots and classes ending in .json/.yaml (gpu.json, x.yaml, y.yaml.json); ids from a list of 30 path-hostile strings ('/', '..', "
+             "'../../x', leading dots, .json/.yaml suffixes, NUL, newline, backslash) and the hostile string generator incl. 300-byte ids; all "
+             "four Generate* functions, with '', .json or .yaml appended; 1..3 directories, the last one existing / missing / nested-missing; "
+             "pre-existing: the same devices in a lower directory, a file already at the target, the same stem with the other extension, an "
+             "unrelated Spec, plus bystander files outside the Spec directories. Oracle: (1) the generated name is a single path component; "
+             "(2) snapshot of the whole sandbox tree (type, size, SHA-256) around WriteSpec - on success only the target in the last directory "
+             "was created or replaced (plus directories on the way to a missing last directory), JSON iff the name ends in .json, and it "
+             "reads back equal; on failure (only NUL / over-long names may fail) nothing but created directories and a *.tmp file changed; "
+             "(3) after Refresh every device resolves to the target with priority len(dirs)-1 unless another file of the last directory "
+             "defines it (then it must not resolve); (4) RemoveSpec(name) deletes exactly the target, and removing again or removing a "
+             "never-written name succeeds and changes nothing. Non-trivial iff the id contains '/' or '.', the class ends in a Spec extension, "
+             "the last directory was missing, or pre-existing content is present; distinct = distinct cases."),
+    "assumptions": ["WriteSpec may only fail for names containing NUL or longer than 255 bytes"],
+    "manifest": {
+        "text": "Random Specs, ids, generators and directory lists with whole-tree before/after snapshots as confinement oracle, read-back and cache resolution as functional oracle; sampling.",
+        "note": "trusted: the tree snapshot (walk + SHA-256) sees every change below the sandbox root; escapes outside the sandbox root would not be seen",
+        "technique": "property-based testing: whole-tree differential snapshots (metamorphic: write then remove restores the tree), round trip through reader and cache",
+    },
+    "health": {"quick": {"id-with-slash-or-dot": 2000, "class-ends-in-spec-extension": 2000, "lastdir:missing": 1000, "lastdir:nested-missing": 1000,
+                         "pre:same-devices-in-lower-directory": 1000, "pre:file-at-target": 500, "pre:same-stem-other-extension": 300, "write-failed": 50}},
+    "units": [
+        {"name": "rapid", "mode": "rapid", "run": "TestC16Rapid", "checks": {"quick": 24000, "thorough": 480000}},
+    ],
+}
